@@ -17,6 +17,15 @@ open Operon.Gen.MitoCaps
 /-- The source as it is now guards both execution paths, and has no other `.execute(...)` site. -/
 theorem c03_guards_extracted : guards = ⟨true, true⟩ ∧ otherExecuteSites = [] := by decide
 
+/-- **The ceiling test of the source is the model's `permitted`** on the complete table over a 3-capability universe
+    (729 rows: every ceiling x every way of declaring capabilities), obtained by running the real `execute_tool_call`
+    with a counting tool body.  The code handles capabilities uniformly (set operations only), so the table covers the
+    decision logic: fallback from `required_capabilities` to `capabilities`, empty vs. absent, `None` vs. empty ceiling. -/
+theorem c03_permitted_table_agrees :
+    ∃ rows, permTable = some rows ∧ rows.length = 729 ∧
+      rows.all (fun r => permitted r.1 ⟨0, r.2.1, r.2.2.1, false⟩ == r.2.2.2) = true := by
+  refine ⟨_, rfl, by decide +kernel, by decide +kernel⟩
+
 /-- **Least privilege, all entry points, all histories.**  Every tool body that ever ran had its required
     capabilities (as declared by the object registered at that moment) inside the ceiling. -/
 theorem c03_least_privilege (allowed : Option (List Cap)) (ops : List Op) :
